@@ -129,6 +129,9 @@ func (sm *stateMachine) executeAction(t *T) bool {
 		t.s.endGroup(i, false)
 
 		if skipped {
+			// a skipped action is replayed (and skipped again); if it gave up inside its first draw,
+			// the rejected attempts of that draw have to be replayed as well
+			t.s.keepGroup(i)
 			continue
 		} else {
 			return !invalid
